@@ -2032,7 +2032,7 @@ fn aligned_case(base: u64, align: u16) {
 /// the local header says. Alignment and offset are concrete per case (a symbolic padding length
 /// is a symbolic-size allocation and did not finish), so this harness decides the cases listed,
 /// not every alignment.
-// @h prop=C17 tier=quick t=2400 mem=8 uws="fn:^std::ptr::drop_glue::<std::io::Error>$:2;write19validate_extra_data\.0$:4;Iterator3any.*validate_extra_data:51"
+// @h prop=C17 tier=thorough t=2400 mem=8 uws="fn:^std::ptr::drop_glue::<std::io::Error>$:2;write19validate_extra_data\.0$:4;Iterator3any.*validate_extra_data:51"
 api_harness!(c17_aligned_enumerated_4, 12, {
     aligned_case(0, 4);
     aligned_case(1, 4);
@@ -2044,17 +2044,12 @@ api_harness!(c17_aligned_enumerated_4, 12, {
     aligned_case(1, 2);
     kani::cover!(true);
 });
-/// C17 alignment, enumerated: alignment 8 at file offsets 0..=7 and alignment 3 at 0..=2.
-// @h prop=C17 tier=dev t=600 mem=8 uws="fn:^std::ptr::drop_glue::<std::io::Error>$:2;write19validate_extra_data\.0$:4;Iterator3any.*validate_extra_data:51"
+/// C17 alignment, enumerated: alignment 8 with the unpadded data offset 4 short of a boundary
+/// (file offset 5) and on a boundary (file offset 1), alignment 3 at file offsets 0..=2.
+// @h prop=C17 tier=quick t=1500 mem=6 uws="fn:^std::ptr::drop_glue::<std::io::Error>$:2;write19validate_extra_data\.0$:4;Iterator3any.*validate_extra_data:51"
 api_harness!(c17_aligned_enumerated_8_3, 16, {
-    aligned_case(0, 8);
-    aligned_case(1, 8);
-    aligned_case(2, 8);
-    aligned_case(3, 8);
-    aligned_case(4, 8);
     aligned_case(5, 8);
-    aligned_case(6, 8);
-    aligned_case(7, 8);
+    aligned_case(1, 8);
     aligned_case(0, 3);
     aligned_case(1, 3);
     aligned_case(2, 3);
